@@ -125,3 +125,73 @@ func ref(n *refrlp.Item, nodes map[string][]byte) *refrlp.Item {
 	nodes[string(h)] = enc
 	return refrlp.S(h)
 }
+
+// Shape describes the structure of the reference trie for a content: used by
+// the checks' observation gates (e.g. "a delete collapsed a branch").
+type Shape struct {
+	Branches, Extensions, Leaves int
+	Embedded                     int // nodes whose encoding is < 32 bytes (stored inline in the parent)
+	BranchValues                 int // branch nodes carrying a value in the 17th slot
+}
+
+func ShapeOf(content map[string][]byte) Shape {
+	var kvs []kv
+	for k, v := range content {
+		if len(v) == 0 {
+			continue
+		}
+		kvs = append(kvs, kv{nibbles([]byte(k)), v})
+	}
+	var s Shape
+	if len(kvs) == 0 {
+		return s
+	}
+	sort.Slice(kvs, func(i, j int) bool { return bytes.Compare(kvs[i].nib, kvs[j].nib) < 0 })
+	shape(kvs, 0, &s, true)
+	return s
+}
+
+func shape(kvs []kv, depth int, s *Shape, root bool) *refrlp.Item {
+	var it *refrlp.Item
+	if len(kvs) == 1 {
+		s.Leaves++
+		it = refrlp.L(refrlp.S(hexPrefix(kvs[0].nib[depth:], true)), refrlp.S(kvs[0].val))
+	} else {
+		first, last := kvs[0].nib, kvs[len(kvs)-1].nib
+		l := depth
+		for l < len(first) && l < len(last) && first[l] == last[l] {
+			l++
+		}
+		if l > depth {
+			s.Extensions++
+			child := shape(kvs, l, s, false)
+			it = refrlp.L(refrlp.S(hexPrefix(first[depth:l], false)), ref(child, map[string][]byte{}))
+		} else {
+			s.Branches++
+			items := make([]*refrlp.Item, 17)
+			for i := range items {
+				items[i] = refrlp.S(nil)
+			}
+			rest := kvs
+			if len(rest[0].nib) == depth {
+				s.BranchValues++
+				items[16] = refrlp.S(rest[0].val)
+				rest = rest[1:]
+			}
+			for len(rest) > 0 {
+				nb := rest[0].nib[depth]
+				j := 0
+				for j < len(rest) && rest[j].nib[depth] == nb {
+					j++
+				}
+				items[nb] = ref(shape(rest[:j], depth+1, s, false), map[string][]byte{})
+				rest = rest[j:]
+			}
+			it = refrlp.L(items...)
+		}
+	}
+	if !root && len(refrlp.Encode(it)) < 32 {
+		s.Embedded++
+	}
+	return it
+}
